@@ -141,7 +141,7 @@ def judge(mode: str, cfg: dict, oracle: Oracle, rec: dict) -> dict[str, bool]:
     v["ReportedIsLastSim"] = (not sel) or (sa is not None and sa[0] == f and abs(sa[1] - H) <= 1e-3)
     # C20: what retrieve_flow hands on, per evaluated / initialised field
     ok = True
-    for e in log:
+    for e in list(log) + [dict(c, e="init") for c in rec.get("created", [])]:     # evaluated / initialised fields and every constructed field object
         if e["e"] in ("eval", "init") and "vsys" in e:
             n = e["n"]
             if cfg["flow"] == "BOREHOLE":
